@@ -1,3 +1,540 @@
+(** C01 — proofs about model/C01_Model.v (its_construct, its_decompose). *)
 From Coq Require Import List NArith ZArith Bool Lia.
-From SK Require Import lib.LGraph model.C01_Model.
-Lemma stub_c01 : forall a n, g_amap (dec_node a n) = Z.of_N n. Proof. reflexivity. Qed.
+From SK Require Import lib.LGraph lib.C01_GraphLemmas model.C01_Model.
+Import ListNotations.
+Local Open Scope Z_scope.
+
+(** * small list facts *)
+Lemma NoDup_app_intro {A} (l1 l2 : list A) :
+  NoDup l1 -> NoDup l2 -> (forall x, In x l1 -> ~ In x l2) -> NoDup (l1 ++ l2).
+Proof.
+  induction l1 as [|a l1 IH]; simpl; intros H1 H2 Hd; [exact H2|].
+  inversion H1; subst. constructor.
+  - rewrite in_app_iff. intros [F|F]; [contradiction|]. apply (Hd a); auto.
+  - apply IH; auto.
+Qed.
+
+Lemma NoDup_map_fst_filter {V} (p : N * V -> bool) (l : list (N * V)) :
+  NoDup (map fst l) -> NoDup (map fst (filter p l)).
+Proof.
+  induction l as [|[k a] r IH]; simpl; intros Hn; [constructor|]. inversion Hn; subst.
+  destruct (p (k, a)); simpl; [constructor|]; auto.
+  intros F. apply in_map_iff in F. destruct F as ([k' a'] & E & F). simpl in E. subst.
+  apply filter_In in F. destruct F as [F _]. apply H1. change k with (fst (k, a')). apply in_map. exact F.
+Qed.
+
+Lemma filter_map_comm {A B} (f : A -> B) (p : A -> bool) (q : B -> bool) (l : list A) :
+  (forall x, q (f x) = p x) -> filter q (map f l) = map f (filter p l).
+Proof.
+  intros H. induction l as [|a l IH]; simpl; [reflexivity|]. rewrite H.
+  destruct (p a); simpl; rewrite IH; reflexivity.
+Qed.
+
+(** * order lookups *)
+Lemma order_in_sym (G : mgraph) u v : order_in G u v = order_in G v u.
+Proof. unfold order_in. rewrite adj_sym. reflexivity. Qed.
+
+Lemma order_in_some (G : mgraph) u v o : adj G u v = Some o -> order_in G u v = o.
+Proof. unfold order_in. intros ->. reflexivity. Qed.
+
+Lemma order_in_none (G : mgraph) u v : adj G u v = None -> order_in G u v = 0.
+Proof. unfold order_in. intros ->. reflexivity. Qed.
+Arguments order_in_some [G u v o] _.
+Arguments order_in_none [G u v] _.
+
+
+
+(** * the edge list of the ITS *)
+Definition its_edges (G H : mgraph) : list (N * N * iedge) :=
+  map (fun e => let '(u, v, o) := e in (u, v, mk_iedge o (order_in H u v))) (gedges G)
+  ++ map (fun e => let '(u, v, o) := e in (u, v, mk_iedge 0 o)) (filter (absent_in G) (gedges H)).
+
+Lemma gedges_its G H : gedges (its_construct G H) = its_edges G H.
+Proof. reflexivity. Qed.
+
+Lemma in_its_edges G H a b e :
+  In (a, b, e) (its_edges G H) <->
+  (exists o, In (a, b, o) (gedges G) /\ e = mk_iedge o (order_in H a b)) \/
+  (exists o, In (a, b, o) (gedges H) /\ adj G a b = None /\ e = mk_iedge 0 o).
+Proof.
+  unfold its_edges. rewrite in_app_iff, !in_map_iff. split.
+  - intros [([[u v] o] & E & I)|([[u v] o] & E & I)]; inversion E; subst.
+    + left. eauto.
+    + right. apply filter_In in I. destruct I as [I Ab]. simpl in Ab.
+      destruct (adj G a b) eqn:Ad; [discriminate|]. eauto.
+  - intros [(o & I & ->)|(o & I & Ad & ->)].
+    + left. exists (a, b, o). auto.
+    + right. exists (a, b, o). split; [reflexivity|]. apply filter_In. split; [exact I|].
+      simpl. rewrite Ad. reflexivity.
+Qed.
+
+(** every stored ITS edge carries (order in G or 0, order in H or 0, difference) *)
+Lemma its_edges_determined G H : wf G -> wf H -> forall a b e, In (a, b, e) (its_edges G H) ->
+  e = mk_iedge (order_in G a b) (order_in H a b) /\ (adj G a b <> None \/ adj H a b <> None).
+Proof.
+  intros WG WH a b e I. apply in_its_edges in I. destruct I as [(o & I & ->)|(o & I & Ad & ->)].
+  - pose proof (wf_in_adj WG I) as Ad. rewrite (order_in_some Ad). split; [reflexivity|]. left. congruence.
+  - pose proof (wf_in_adj WH I) as Ah. rewrite (order_in_some Ah), (order_in_none Ad).
+    split; [reflexivity|]. right. congruence.
+Qed.
+
+Lemma its_edges_consistent G H : wf G -> wf H -> consistent (its_edges G H).
+Proof.
+  intros WG WH a b x y Hx Hy.
+  assert (forall z, In (a, b, z) (its_edges G H) \/ In (b, a, z) (its_edges G H) ->
+                    z = mk_iedge (order_in G a b) (order_in H a b)) as D.
+  { intros z [I|I]; apply (its_edges_determined G H WG WH) in I; destruct I as [-> _]; [reflexivity|].
+    rewrite (order_in_sym G b a), (order_in_sym H b a). reflexivity. }
+  rewrite (D x Hx), (D y Hy). reflexivity.
+Qed.
+
+Lemma its_edges_exists G H u v : wf G -> wf H -> adj G u v <> None \/ adj H u v <> None ->
+  exists e, In (u, v, e) (its_edges G H) \/ In (v, u, e) (its_edges G H).
+Proof.
+  intros WG WH Hex. destruct (adj G u v) as [o|] eqn:Ag.
+  - apply (wf_adj_iff WG) in Ag. destruct Ag as [I|I].
+    + exists (mk_iedge o (order_in H u v)). left. apply in_its_edges. left. eauto.
+    + exists (mk_iedge o (order_in H v u)). right. apply in_its_edges. left. eauto.
+  - destruct Hex as [F|Hh]; [congruence|]. destruct (adj H u v) as [o|] eqn:Ah; [|congruence].
+    apply (wf_adj_iff WH) in Ah. exists (mk_iedge 0 o). destruct Ah as [I|I].
+    + left. apply in_its_edges. right. eauto.
+    + right. apply in_its_edges. right. exists o. rewrite adj_sym. auto.
+Qed.
+
+(** the edge map of the ITS *)
+Lemma its_adj G H u v : wf G -> wf H ->
+  adj (its_construct G H) u v =
+  match adj G u v, adj H u v with
+  | None, None => None
+  | _, _ => Some (mk_iedge (order_in G u v) (order_in H u v))
+  end.
+Proof.
+  intros WG WH. unfold adj at 1. rewrite gedges_its. apply option_ext. intros x.
+  rewrite (find_edge_iff (its_edges_consistent G H WG WH)). split.
+  - intros I.
+    assert (x = mk_iedge (order_in G u v) (order_in H u v) /\ (adj G u v <> None \/ adj H u v <> None)) as [-> Hex].
+    { destruct I as [I|I]; apply (its_edges_determined G H WG WH) in I; [exact I|].
+      rewrite (order_in_sym G u v), (order_in_sym H u v), (adj_sym G u v), (adj_sym H u v). exact I. }
+    destruct (adj G u v), (adj H u v); try reflexivity. destruct Hex; congruence.
+  - intros E.
+    assert (adj G u v <> None \/ adj H u v <> None) as Hex.
+    { destruct (adj G u v), (adj H u v); try discriminate; [left|left|right]; discriminate. }
+    assert (x = mk_iedge (order_in G u v) (order_in H u v)) as ->.
+    { destruct (adj G u v), (adj H u v); congruence. }
+    destruct (its_edges_exists G H u v WG WH Hex) as (e & I).
+    assert (e = mk_iedge (order_in G u v) (order_in H u v)) as <-; [|exact I].
+    destruct I as [I|I]; apply (its_edges_determined G H WG WH) in I; destruct I as [-> _]; [reflexivity|].
+    rewrite (order_in_sym G v u), (order_in_sym H v u). reflexivity.
+Qed.
+
+(** * the node list of the ITS *)
+Definition its_base (G H : mgraph) := if base_is_G G H then G else H.
+Definition its_other (G H : mgraph) := if base_is_G G H then H else G.
+
+Lemma its_label G H n :
+  label (its_construct G H) n =
+  match label (its_base G H) n with
+  | Some a => Some (its_node G H n (g_amap a))
+  | None => match label (its_other G H) n with
+            | Some a => Some (its_node G H n (g_amap a))
+            | None => None
+            end
+  end.
+Proof.
+  unfold label at 1, its_construct. simpl. fold (its_base G H). fold (its_other G H).
+  rewrite (assoc_map_val (fun k (v : gnode) => its_node G H k (g_amap v))), assoc_app.
+  fold (label (its_base G H) n). destruct (label (its_base G H) n) as [a|] eqn:Lb; simpl; [reflexivity|].
+  rewrite (assoc_filter (fun k => negb (has_node (its_base G H) k))).
+  unfold has_node. rewrite Lb. simpl. fold (label (its_other G H) n).
+  destruct (label (its_other G H) n); reflexivity.
+Qed.
+
+Lemma its_node_ids G H n :
+  In n (node_ids (its_construct G H)) <-> In n (node_ids G) \/ In n (node_ids H).
+Proof.
+  assert (In n (node_ids (its_construct G H)) <-> In n (node_ids (its_base G H)) \/ In n (node_ids (its_other G H))) as E.
+  { split.
+    - intros I. apply node_label_some in I. destruct I as (a & L). rewrite its_label in L.
+      destruct (label (its_base G H) n) eqn:Lb; [left; eapply label_some_node; eauto|].
+      destruct (label (its_other G H) n) eqn:Lo; [right; eapply label_some_node; eauto|discriminate].
+    - intros I.
+      assert (label (its_construct G H) n <> None) as L.
+      { rewrite its_label. destruct I as [I|I]; apply node_label_some in I; destruct I as (a & L).
+        - rewrite L. discriminate.
+        - destruct (label (its_base G H) n); [discriminate|]. rewrite L. discriminate. }
+      destruct (label (its_construct G H) n) eqn:L'; [eapply label_some_node; eauto|congruence]. }
+  rewrite E. unfold its_base, its_other. destruct (base_is_G G H); tauto.
+Qed.
+
+(** typesGH of every ITS node *)
+Lemma its_label_types G H n a : label (its_construct G H) n = Some a ->
+  i_G a = side_tuple G n /\ i_H a = side_tuple H n /\
+  i_el a = a_el (side_tuple G n) /\ i_ch a = a_ch (side_tuple G n) /\
+  i_extra a = Some (a_arom (side_tuple G n), a_hc (side_tuple G n), a_nb (side_tuple G n)).
+Proof.
+  rewrite its_label. intros L.
+  assert (exists m, a = its_node G H n m) as (m & ->).
+  { destruct (label (its_base G H) n); [inversion L; eauto|].
+    destruct (label (its_other G H) n); [inversion L; eauto|discriminate]. }
+  simpl. auto.
+Qed.
+
+Lemma its_nodup G H : wf G -> wf H -> NoDup (node_ids (its_construct G H)).
+Proof.
+  intros WG WH. unfold node_ids, its_construct. simpl. fold (its_base G H). fold (its_other G H).
+  rewrite (map_fst_map_val (fun k (v : gnode) => its_node G H k (g_amap v))), map_app.
+  assert (NoDup (node_ids (its_base G H)) /\ NoDup (node_ids (its_other G H))) as [Nb No].
+  { unfold its_base, its_other. destruct (base_is_G G H); split; first [apply WG|apply WH]. }
+  apply NoDup_app_intro.
+  - exact Nb.
+  - apply NoDup_map_fst_filter. exact No.
+  - intros x Ix F. apply in_map_iff in F. destruct F as ([k a] & E & F). simpl in E. subst.
+    apply filter_In in F. destruct F as [_ F]. simpl in F.
+    apply has_node_spec in Ix. rewrite Ix in F. discriminate.
+Qed.
+
+Lemma its_edges_simple G H : wf G -> wf H -> simple (its_edges G H).
+Proof.
+  intros WG WH. unfold its_edges. apply simple_app.
+  - apply (simple_map_attr (fun u v (o : Z) => mk_iedge o (order_in H u v))). apply wf_simple. exact WG.
+  - apply (simple_map_attr (fun _ _ (o : Z) => mk_iedge 0 o)). apply simple_filter. apply wf_simple. exact WH.
+  - intros a b x I. apply in_map_iff in I. destruct I as ([[u v] o] & E & I). inversion E; subst.
+    apply find_edge_none. intros y. split; intros F; apply in_map_iff in F;
+      destruct F as ([[u' v'] o'] & E' & F); inversion E'; subst; apply filter_In in F; destruct F as [_ F]; simpl in F.
+    + rewrite (wf_in_adj WG I) in F. discriminate.
+    + rewrite adj_sym, (wf_in_adj WG I) in F. discriminate.
+Qed.
+
+Lemma its_wf G H : wf G -> wf H -> wf (its_construct G H).
+Proof.
+  intros WG WH. apply wf_intro.
+  - apply its_nodup; assumption.
+  - intros a b x I. rewrite gedges_its in I. rewrite !its_node_ids. apply in_its_edges in I.
+    destruct I as [(o & I & _)|(o & I & _ & _)].
+    + destruct (wf_edge_nodes WG I) as (Ha & Hb & Hab). tauto.
+    + destruct (wf_edge_nodes WH I) as (Ha & Hb & Hab). tauto.
+  - rewrite gedges_its. apply its_edges_simple; assumption.
+Qed.
+
+Lemma its_std_consistent G H : std_consistent (its_construct G H).
+Proof.
+  intros u v x I. rewrite gedges_its in I. apply in_its_edges in I.
+  destruct I as [(o & _ & ->)|(o & _ & _ & ->)]; reflexivity.
+Qed.
+
+(** * its_decompose *)
+Lemma dec_label sn se (I : its) n :
+  label (dec_side sn se I) n = option_map (fun a => dec_node (sn a) n) (label I n).
+Proof.
+  unfold label, dec_side. simpl. apply (assoc_map_val (fun k (a : inode) => dec_node (sn a) k)).
+Qed.
+
+Lemma in_dec_edges sn se (I : its) a b o :
+  In (a, b, o) (gedges (dec_side sn se I)) <-> exists x, In (a, b, x) (gedges I) /\ 0 < se x /\ o = se x.
+Proof.
+  unfold dec_side. simpl. rewrite in_flat_map. split.
+  - intros ([[u v] x] & I1 & I2). destruct (0 <? se x) eqn:P; [|destruct I2].
+    destruct I2 as [E|[]]. inversion E; subst. apply Z.ltb_lt in P. eauto.
+  - intros (x & I1 & P & ->). exists (a, b, x). split; [exact I1|]. apply Z.ltb_lt in P. rewrite P. left. reflexivity.
+Qed.
+
+Lemma dec_adj sn se (I : its) u v : consistent (gedges I) ->
+  adj (dec_side sn se I) u v =
+  match adj I u v with Some x => if 0 <? se x then Some (se x) else None | None => None end.
+Proof.
+  intros Hc.
+  assert (consistent (gedges (dec_side sn se I))) as Hd.
+  { intros a b x y Hx Hy.
+    assert (forall z, In (a, b, z) (gedges (dec_side sn se I)) \/ In (b, a, z) (gedges (dec_side sn se I)) ->
+                      exists w, (In (a, b, w) (gedges I) \/ In (b, a, w) (gedges I)) /\ z = se w) as D.
+    { intros z [F|F]; apply in_dec_edges in F; destruct F as (w & F & _ & ->); eauto. }
+    destruct (D x Hx) as (w1 & I1 & ->), (D y Hy) as (w2 & I2 & ->). f_equal. eapply Hc; eauto. }
+  apply option_ext. intros o. unfold adj at 1. rewrite (find_edge_iff Hd), !in_dec_edges. split.
+  - intros [(x & I1 & P & ->)|(x & I1 & P & ->)].
+    + assert (adj I u v = Some x) as -> by (apply (find_edge_iff Hc); auto).
+      apply Z.ltb_lt in P. rewrite P. reflexivity.
+    + assert (adj I u v = Some x) as -> by (apply (find_edge_iff Hc); auto).
+      apply Z.ltb_lt in P. rewrite P. reflexivity.
+  - destruct (adj I u v) as [x|] eqn:Ad; [|discriminate].
+    destruct (0 <? se x) eqn:P; [|discriminate]. intros [= <-]. apply Z.ltb_lt in P.
+    apply (find_edge_iff Hc) in Ad. destruct Ad as [Ad|Ad]; [left|right]; eauto.
+Qed.
+
+Lemma dec_amap_id sn se (I : its) : amap_id (dec_side sn se I).
+Proof.
+  intros n a L. rewrite dec_label in L. destruct (label I n); inversion L. reflexivity.
+Qed.
+
+(** * C01_roundtrip *)
+Lemma orders_pos_adj (G : mgraph) u v o : orders_pos G -> adj G u v = Some o -> 0 < o.
+Proof.
+  intros P Ad. apply find_edge_some_in in Ad. destruct Ad as [I|I]; eapply P; eauto.
+Qed.
+
+Lemma same_nodes_label_none (G H : mgraph) n : same_nodes G H -> label G n = None -> label H n = None.
+Proof.
+  intros S L. destruct (label H n) eqn:LH; [|reflexivity]. exfalso.
+  apply label_some_node, S, node_label_some in LH. destruct LH. congruence.
+Qed.
+
+Lemma roundtrip_labels G H : wf G -> wf H -> same_nodes G H ->
+  forall n,
+    option_map sel4 (label (fst (its_decompose (its_construct G H))) n) = option_map sel4 (label G n) /\
+    option_map sel4 (label (snd (its_decompose (its_construct G H))) n) = option_map sel4 (label H n).
+Proof.
+  intros WG WH S n. simpl. rewrite !dec_label.
+  destruct (label (its_construct G H) n) as [a|] eqn:L.
+  - destruct (its_label_types G H n a L) as (EG & EH & _). simpl. rewrite EG, EH.
+    assert (In n (node_ids G)) as IG.
+    { apply label_some_node in L. apply its_node_ids in L. destruct L as [L|L]; [exact L|apply S; exact L]. }
+    pose proof (proj1 (S n) IG) as IH. apply node_label_some in IG, IH.
+    destruct IG as (ag & LG), IH as (ah & LH). unfold side_tuple. rewrite LG, LH. split; reflexivity.
+  - assert (label G n = None) as LG.
+    { destruct (label G n) eqn:LG; [|reflexivity]. exfalso.
+      assert (In n (node_ids (its_construct G H))) as I by (apply its_node_ids; left; eapply label_some_node; eauto).
+      apply node_label_some in I. destruct I. congruence. }
+    rewrite LG, (same_nodes_label_none _ _ _ S LG). split; reflexivity.
+Qed.
+
+Lemma roundtrip_adj G H : wf G -> wf H -> orders_pos G -> orders_pos H ->
+  forall u v,
+    adj (fst (its_decompose (its_construct G H))) u v = adj G u v /\
+    adj (snd (its_decompose (its_construct G H))) u v = adj H u v.
+Proof.
+  intros WG WH PG PH u v. simpl.
+  assert (consistent (gedges (its_construct G H))) as Hc by (rewrite gedges_its; apply its_edges_consistent; assumption).
+  rewrite !(dec_adj _ _ _ _ _ Hc), (its_adj G H u v WG WH).
+  destruct (adj G u v) as [og|] eqn:Ag, (adj H u v) as [oh|] eqn:Ah; simpl;
+    rewrite ?(order_in_some Ag), ?(order_in_some Ah), ?(order_in_none Ag), ?(order_in_none Ah);
+    try (pose proof (orders_pos_adj _ _ _ _ PG Ag) as P1; apply Z.ltb_lt in P1; rewrite P1);
+    try (pose proof (orders_pos_adj _ _ _ _ PH Ah) as P2; apply Z.ltb_lt in P2; rewrite P2);
+    auto.
+Qed.
+
+Theorem roundtrip G H : wf G -> wf H -> same_nodes G H -> orders_pos G -> orders_pos H ->
+  geq_sel (fst (its_decompose (its_construct G H))) G /\ amap_id (fst (its_decompose (its_construct G H))) /\
+  geq_sel (snd (its_decompose (its_construct G H))) H /\ amap_id (snd (its_decompose (its_construct G H))).
+Proof.
+  intros WG WH S PG PH. unfold geq_sel. repeat split.
+  - intros n. apply (roundtrip_labels G H WG WH S).
+  - intros u v. apply (roundtrip_adj G H WG WH PG PH).
+  - apply dec_amap_id.
+  - intros n. apply (roundtrip_labels G H WG WH S).
+  - intros u v. apply (roundtrip_adj G H WG WH PG PH).
+  - apply dec_amap_id.
+Qed.
+
+(** * C01_union *)
+Theorem union G H : wf G -> wf H ->
+  let I := its_construct G H in
+  (forall n, In n (node_ids I) <-> In n (node_ids G) \/ In n (node_ids H)) /\
+  (forall n a, label I n = Some a -> i_G a = side_tuple G n /\ i_H a = side_tuple H n) /\
+  (forall u v a b s, adj I u v = Some (IE a b s) <->
+      a = order_in G u v /\ b = order_in H u v /\ (adj G u v <> None \/ adj H u v <> None) /\ s = a - b) /\
+  std_consistent I /\ wf I.
+Proof.
+  intros WG WH I. subst I. split; [|split; [|split; [|split]]].
+  - apply its_node_ids.
+  - intros n a L. destruct (its_label_types G H n a L) as (E1 & E2 & _). split; assumption.
+  - intros u v a b s. rewrite (its_adj G H u v WG WH). split.
+    + intros E.
+      assert (IE a b s = mk_iedge (order_in G u v) (order_in H u v) /\ (adj G u v <> None \/ adj H u v <> None)) as [E' Hex].
+      { destruct (adj G u v), (adj H u v); inversion E; (split; [reflexivity|]); [left|left|right]; discriminate. }
+      inversion E'; subst. auto.
+    + intros (-> & -> & Hex & ->).
+      destruct (adj G u v), (adj H u v); try reflexivity. destruct Hex; congruence.
+  - apply its_std_consistent.
+  - apply its_wf; assumption.
+Qed.
+
+(** * C01_equivariant *)
+Section Equivariant.
+Variable f : N -> N.
+Hypothesis Hinj : forall a b, f a = f b -> a = b.
+
+Lemma side_tuple_relabel (G : mgraph) n : side_tuple (relabel f G) (f n) = side_tuple G n.
+Proof. unfold side_tuple. rewrite (label_relabel Hinj). reflexivity. Qed.
+
+Lemma its_node_relabel G H n m : its_node (relabel f G) (relabel f H) (f n) m = its_node G H n m.
+Proof. unfold its_node. rewrite !side_tuple_relabel. reflexivity. Qed.
+
+Lemma order_in_relabel (G : mgraph) u v : order_in (relabel f G) (f u) (f v) = order_in G u v.
+Proof. unfold order_in. rewrite (adj_relabel Hinj). reflexivity. Qed.
+
+Lemma base_is_G_relabel (G H : mgraph) : base_is_G (relabel f G) (relabel f H) = base_is_G G H.
+Proof. unfold base_is_G, relabel. simpl. rewrite !map_length. reflexivity. Qed.
+
+Definition its_build (G H base other : mgraph) : its :=
+  LG (map (fun p => (fst p, its_node G H (fst p) (g_amap (snd p))))
+          (gnodes base ++ filter (fun p => negb (has_node base (fst p))) (gnodes other)))
+     (its_edges G H).
+
+Lemma construct_build G H : its_construct G H = its_build G H (its_base G H) (its_other G H).
+Proof. reflexivity. Qed.
+
+Lemma lg_eq {A B} (g h : lgraph A B) : gnodes g = gnodes h -> gedges g = gedges h -> g = h.
+Proof. destruct g, h. simpl. intros -> ->. reflexivity. Qed.
+
+Lemma gnodes_relabel {A B} (g : lgraph A B) : gnodes (relabel f g) = map (fun p => (f (fst p), snd p)) (gnodes g).
+Proof. reflexivity. Qed.
+Lemma gedges_relabel {A B} (g : lgraph A B) :
+  gedges (relabel f g) = map (fun e => let '(a, b, x) := e in (f a, f b, x)) (gedges g).
+Proof. reflexivity. Qed.
+
+Lemma its_edges_equivariant G H :
+  its_edges (relabel f G) (relabel f H) = map (fun e => let '(a, b, x) := e in (f a, f b, x)) (its_edges G H).
+Proof.
+  unfold its_edges. rewrite map_app, !gedges_relabel. f_equal.
+  - rewrite !map_map. apply map_ext. intros [[u v] o]. rewrite order_in_relabel. reflexivity.
+  - rewrite (filter_map_comm (fun e : N * N * Z => let '(a, b, x) := e in (f a, f b, x)) (absent_in G)).
+    + rewrite !map_map. apply map_ext. intros [[u v] o]. reflexivity.
+    + intros [[u v] o]. simpl. rewrite (adj_relabel Hinj). reflexivity.
+Qed.
+
+Lemma build_equivariant G H base other :
+  its_build (relabel f G) (relabel f H) (relabel f base) (relabel f other) = relabel f (its_build G H base other).
+Proof.
+  apply lg_eq.
+  - rewrite gnodes_relabel. cbn [its_build gnodes]. rewrite !gnodes_relabel.
+    rewrite (filter_map_comm (fun p : N * gnode => (f (fst p), snd p)) (fun p => negb (has_node base (fst p)))).
+    + rewrite <- map_app, !map_map. apply map_ext. intros [k a]. cbn [fst snd]. rewrite its_node_relabel. reflexivity.
+    + intros [k a]. cbn [fst snd]. rewrite (has_node_relabel Hinj). reflexivity.
+  - rewrite gedges_relabel. cbn [its_build gedges]. apply its_edges_equivariant.
+Qed.
+
+Lemma construct_equivariant G H :
+  its_construct (relabel f G) (relabel f H) = relabel f (its_construct G H).
+Proof.
+  rewrite !construct_build, <- build_equivariant. unfold its_base, its_other. rewrite base_is_G_relabel.
+  destruct (base_is_G G H); reflexivity.
+Qed.
+
+Lemma dec_side_equivariant sn se (I : its) :
+  dec_side sn se (relabel f I) = set_amap (relabel f (dec_side sn se I)).
+Proof.
+  unfold dec_side, set_amap, relabel. simpl. f_equal.
+  - rewrite !map_map. apply map_ext. intros [k a]. reflexivity.
+  - induction (gedges I) as [|[[u v] x] r IH]; simpl; [reflexivity|].
+    rewrite map_app, IH. destruct (0 <? se x); reflexivity.
+Qed.
+
+Lemma decompose_equivariant (I : its) :
+  its_decompose (relabel f I) =
+  (set_amap (relabel f (fst (its_decompose I))), set_amap (relabel f (snd (its_decompose I)))).
+Proof. unfold its_decompose. simpl. rewrite !dec_side_equivariant. reflexivity. Qed.
+End Equivariant.
+
+Theorem equivariant (f : N -> N) : (forall a b, f a = f b -> a = b) -> forall (G H : mgraph) (I : its),
+  its_construct (relabel f G) (relabel f H) = relabel f (its_construct G H) /\
+  its_decompose (relabel f I) =
+    (set_amap (relabel f (fst (its_decompose I))), set_amap (relabel f (snd (its_decompose I)))).
+Proof. intros Hinj G H I. split; [apply construct_equivariant|apply decompose_equivariant]; exact Hinj. Qed.
+
+(** set_amap is the identity on what its_decompose returns *)
+Lemma set_amap_dec sn se (I : its) : set_amap (dec_side sn se I) = dec_side sn se I.
+Proof.
+  unfold set_amap, dec_side. simpl. f_equal. rewrite map_map. apply map_ext. intros [k a]. reflexivity.
+Qed.
+
+(** * C01_one_sided_refuted: a node present on the reactant side only comes back as a "*" atom on the product side *)
+Definition ex_G1 : mgraph := LG [(1%N, GN 70%N false 4 0 (Some []) 1)] [].
+Definition ex_H0 : mgraph := LG [] [].
+
+Lemma wf_nil_edges {A B} (ns : list (N * A)) : NoDup (map fst ns) -> wf (LG ns ([] : list (N * N * B))).
+Proof. intros Hn. apply wf_intro; simpl; [exact Hn|intros ? ? ? []|constructor]. Qed.
+
+Theorem one_sided_refuted :
+  exists G H : mgraph, wf G /\ wf H /\ orders_pos G /\ orders_pos H /\ ~ same_nodes G H /\
+    ~ geq_sel (snd (its_decompose (its_construct G H))) H.
+Proof.
+  exists ex_G1, ex_H0. split; [|split; [|split; [|split; [|split]]]].
+  - apply wf_nil_edges. simpl. constructor; [intros []|constructor].
+  - apply wf_nil_edges. constructor.
+  - intros u v o [].
+  - intros u v o [].
+  - intros S. destruct (proj1 (S 1%N)). left. reflexivity.
+  - intros [L _]. specialize (L 1%N). vm_compute in L. discriminate.
+Qed.
+
+(** * C01_rsmi_partial: the string round trip relative to the RDKit contract S1 *)
+Lemma geq_sel_trans (g1 g2 g3 : mgraph) : geq_sel g1 g2 -> geq_sel g2 g3 -> geq_sel g1 g3.
+Proof. intros [A1 A2] [B1 B2]. split; intros; etransitivity; eauto. Qed.
+
+Theorem rsmi_partial (rsmi : Type) (parse : rsmi -> option (mgraph * mgraph))
+        (write : mgraph -> mgraph -> its -> option rsmi) :
+  (forall g h I s, write g h I = Some s ->
+     exists g' h', parse s = Some (g', h') /\ geq_sel g' g /\ geq_sel h' h) ->
+  forall r G H, parse r = Some (G, H) -> wf G -> wf H -> same_nodes G H -> orders_pos G -> orders_pos H ->
+  forall I s, rsmi_to_its parse r = Some I -> its_to_rsmi write I = Some s ->
+  exists G' H', parse s = Some (G', H') /\ geq_sel G' G /\ geq_sel H' H.
+Proof.
+  intros S1 r G H P WG WH S PG PH I s RI WR.
+  unfold rsmi_to_its in RI. rewrite P in RI. inversion RI; subst I. clear RI.
+  unfold its_to_rsmi in WR. destruct (its_decompose (its_construct G H)) as [g h] eqn:D.
+  destruct (S1 _ _ _ _ WR) as (g' & h' & P' & E1 & E2).
+  destruct (roundtrip G H WG WH S PG PH) as (R1 & _ & R2 & _). rewrite D in R1, R2. simpl in R1, R2.
+  exists g', h'. split; [exact P'|]. split; eapply geq_sel_trans; eauto.
+Qed.
+
+(** * non-vacuity: a 4-atom substitution  C1-Br2 + O3-H4 -> C1-O3 + Br2-H4  *)
+Definition ex_na (el : N) (hc : Z) (m : Z) : gnode := GN el false hc 0 (Some []) m.
+Definition ex_G : mgraph :=
+  LG [(1%N, ex_na 70%N 3 1); (2%N, ex_na 17013%N 0 2); (3%N, ex_na 82%N 1 3); (4%N, ex_na 2%N 0 4)]
+     [(1%N, 2%N, 2); (3%N, 4%N, 2)].
+Definition ex_H : mgraph :=
+  LG [(1%N, ex_na 70%N 3 1); (2%N, ex_na 17013%N 0 2); (3%N, ex_na 82%N 1 3); (4%N, ex_na 2%N 0 4)]
+     [(3%N, 1%N, 2); (4%N, 2%N, 2)].
+
+Lemma ex_G_wf : wf ex_G.
+Proof.
+  apply wf_intro; simpl.
+  - repeat constructor; simpl; intuition discriminate.
+  - intros a b x [E|[E|[]]]; inversion E; subst; simpl; intuition discriminate.
+  - repeat constructor.
+Qed.
+Lemma ex_H_wf : wf ex_H.
+Proof.
+  apply wf_intro; simpl.
+  - repeat constructor; simpl; intuition discriminate.
+  - intros a b x [E|[E|[]]]; inversion E; subst; simpl; intuition discriminate.
+  - repeat constructor.
+Qed.
+Lemma ex_same : same_nodes ex_G ex_H.
+Proof. intros n. reflexivity. Qed.
+Lemma ex_pos_G : orders_pos ex_G.
+Proof. intros u v o [E|[E|[]]]; inversion E; lia. Qed.
+Lemma ex_pos_H : orders_pos ex_H.
+Proof. intros u v o [E|[E|[]]]; inversion E; lia. Qed.
+
+(** the hypotheses of C01_roundtrip / C01_union are satisfiable and the ITS is not trivial:
+    four bonds, all of them changed *)
+Example C01_nonvacuous :
+  wf ex_G /\ wf ex_H /\ same_nodes ex_G ex_H /\ orders_pos ex_G /\ orders_pos ex_H /\
+  adj (its_construct ex_G ex_H) 1%N 2%N = Some (IE 2 0 2) /\
+  adj (its_construct ex_G ex_H) 1%N 3%N = Some (IE 0 2 (-2)) /\
+  length (gedges (its_construct ex_G ex_H)) = 4%nat /\
+  gedges (fst (its_decompose (its_construct ex_G ex_H))) = gedges ex_G.
+Proof.
+  split; [apply ex_G_wf|]. split; [apply ex_H_wf|]. split; [apply ex_same|]. split; [apply ex_pos_G|].
+  split; [apply ex_pos_H|]. repeat split.
+Qed.
+
+(** equivariance is not vacuous: a non-identity injective renumbering moves the ITS *)
+Example C01_equivariant_nonvacuous :
+  its_construct (relabel (N.add 10) ex_G) (relabel (N.add 10) ex_H) = relabel (N.add 10) (its_construct ex_G ex_H) /\
+  relabel (N.add 10) (its_construct ex_G ex_H) <> its_construct ex_G ex_H.
+Proof.
+  split; [apply construct_equivariant; intros a b; apply N.add_cancel_l|]. intros E. vm_compute in E. discriminate.
+Qed.
+
+(** the RDKit contract S1 is satisfiable: with reaction strings = graph pairs, parse = Some, write = Some *)
+Example C01_rsmi_nonvacuous :
+  let parse := fun r : mgraph * mgraph => Some r in
+  let write := fun (g h : mgraph) (_ : its) => Some (g, h) in
+  (forall g h I s, write g h I = Some s -> exists g' h', parse s = Some (g', h') /\ geq_sel g' g /\ geq_sel h' h) /\
+  exists s, its_to_rsmi write (its_construct ex_G ex_H) = Some s.
+Proof.
+  split.
+  - intros g h I s [= <-]. exists g, h. repeat split; reflexivity.
+  - eexists. reflexivity.
+Qed.
